@@ -405,6 +405,89 @@ def instances_part(ctx: Ctx, data):
     ctx.add_cov(reapplication_probes=nchecked, reapplication_probe_histogram=hist)
 
 
+# ---------------------------------------------------------------------------
+# uniformity of the extracted templates: every rule row on several operand shapes, replayed through the model
+# ---------------------------------------------------------------------------
+
+def uniformity_part(ctx: Ctx, data):
+    """The translator abstracts each rule row from a probe with ATOMIC operands and assumes the rule is uniform in its
+    operands.  Here every rule row of every logic is exercised on real tableaux whose keyed node has compound, repeated,
+    quantified and modal operands; the whole run is replayed through the calculus model instantiated with the regenerated
+    templates: every step must be a legal instance and the final branches must be equal node for node."""
+    from .. import tabrun
+    from ..common import drive
+    from pytableaux.lang import Atomic, Operated, Operator, Quantified, Quantifier, Variable, Predicate, Constant
+    A, B, C, D = Atomic(0, 0), Atomic(1, 0), Atomic(2, 0), Atomic(3, 0)
+    x = Variable(0, 0)
+    F, G = Predicate(0, 0, 1), Predicate(1, 0, 1)
+    a = Constant(0, 0)
+    N = Operator.Negation
+    opn = {o.name: o for o in Operator}
+    qn = {q.name: q for q in Quantifier}
+
+    def operand_shapes(meta):
+        sh = [(N(C), Operated(Operator.Conjunction, (C, D))), (A, A), (Operated(Operator.Disjunction, (A, N(A))), N(N(B)))]
+        if meta['quantified']:
+            sh.append((Quantified(Quantifier.Universal, x, F(x)), G(a)))
+        if meta['modal']:
+            sh.append((Operated(Operator.Possibility, (A,)), Operated(Operator.Necessity, (N(B),))))
+        return sh
+
+    jobs, info = [], []
+    for lg in sorted(data):
+        d = data[lg]
+        if 'fatal' in d:
+            continue
+        shapes = operand_shapes(d)
+        if not ctx.thorough:
+            shapes = shapes[:2] + shapes[3:4]
+        for k, r in d['rules']:
+            (kind, sym), negated, des = k
+            for (o1, o2) in shapes:
+                if kind == 'quant':
+                    body = Operated(Operator.Disjunction, (F(x), o1)) if x not in getattr(o1, 'variables', ()) else F(x)
+                    inner = Quantified(dict((q.name.lower()[:2] if False else n, q) for n, q in [('ex', Quantifier.Existential), ('univ', Quantifier.Universal)])[sym], x, body)
+                elif kind == 'op1':
+                    inner = Operated({'asrt': Operator.Assertion, 'neg': Operator.Negation, 'poss': Operator.Possibility, 'nec': Operator.Necessity}[sym], (o1,))
+                else:
+                    inner = Operated({'conj': Operator.Conjunction, 'disj': Operator.Disjunction, 'mcond': Operator.MaterialConditional,
+                                      'mbicond': Operator.MaterialBiconditional, 'cond': Operator.Conditional, 'bicond': Operator.Biconditional}[sym], (o1, o2))
+                S = N(inner) if negated else inner
+                if d['marks']:
+                    prem, conc = ([S, G(a)], D) if des is not False else ([G(a)], S)
+                else:
+                    prem, conc = ([S, G(a)], D) if not negated else ([G(a)], inner)
+                if d['modal']:
+                    prem = prem + [Operated(Operator.Possibility, (Atomic(4, 0),))]      # an accessible world for each-world rules
+                jobs.append(tabrun.job_for(len(jobs), lg, prem, conc, opts=tabrun.OPTS[0], mode='build', max_steps=60))
+                info.append((lg, r['name']))
+    outs = tabrun.run_jobs(jobs, order_seed=0)
+    good = [(i, o) for i, o in enumerate(outs) if 'error' not in o]
+    for i, o in enumerate(outs):
+        if 'error' in o:
+            lg, rn = info[i]
+            ctx.fail(f'C04:uniformity:exception:{lg}:{rn}', f'{lg}: the prover raised {o["error"][:160]} on a probe of rule {rn} with compound operands',
+                     dict(argument=tabrun.arg_text(jobs[i]), traceback=o.get('traceback')), found_input=bool(o.get('repo')))
+    answers = drive([o['request'] for _, o in good])
+    fired = set()
+    nrej = 0
+    for (i, o), a_ in zip(good, answers):
+        lg, rn = info[i]
+        ctx.count(('uniform', lg, rn, tuple(jobs[i]['premises']), jobs[i]['conclusion']))
+        if rn in o['rules']:
+            fired.add((lg, rn))
+        ok = a_.startswith('ok') and a_.split(' :: ', 1)[1] == o['final']
+        if not ok:
+            nrej += 1
+            ctx.fail(f'C04:uniformity:{lg}:{rn}', f'{lg}: a real run exercising {rn} on compound operands is not reproduced by the regenerated '
+                     f'templates ({a_.split(" :: ")[0][:80]}): the rule is not uniform in its operands or the template is wrong',
+                     dict(argument=tabrun.arg_text(jobs[i]), correspondence='whole-proof replay of rule-row probes', driver=a_.split(' :: ')[0]),
+                     found_input=False)
+    allrows = set(info)
+    ctx.add_cov(uniformity_probes=len(jobs), uniformity_rule_rows=len(allrows), uniformity_rule_rows_fired=len(fired),
+                uniformity_rows_never_fired=sorted(f'{lg}:{rn}' for lg, rn in allrows - fired)[:40], uniformity_rejected=nrej)
+
+
 def run(ctx: Ctx):
     data = logicobl.regenerate()
     cats = dict(rules_exact=h_rules_exact, rules_total=h_simple('rules_total'), rules_local=h_simple('rules_local'),
@@ -423,6 +506,7 @@ def run(ctx: Ctx):
             else:
                 raise
     try:
+        uniformity_part(ctx, data)
         instances_part(ctx, data)
     except Exception as e:  # noqa
         from ..common import repo_frames, tb_text
